@@ -4,7 +4,7 @@ import os
 import re
 import vlib
 
-PROPS = ['Rangers.Props.C10', 'Rangers.Props.C10B', 'Rangers.Props.C10T']
+PROPS = ['Rangers.Props.C10', 'Rangers.Props.C10B', 'Rangers.Props.C10M', 'Rangers.Props.C10R', 'Rangers.Props.C10T']
 DRIVERS = ['C10']
 GENERATED = os.path.join(vlib.LEAN, 'Rangers', 'Generated', 'Evm10JumpTable.lean')
 MODEL_TABLE = os.path.join(vlib.LEAN, 'Rangers', 'Model', 'Evm10Table.lean')
@@ -15,7 +15,7 @@ META = dict(
               'jump-destination bitmap, interpreter loop); model tied to the source by a regenerated '
               'jump-table fact file (T-gen) and by differential execution of the real EVM against the '
               'compiled model (T-corr)',
-    level_text='every theorem in Rangers.Props.C10, C10B, C10T is kernel-checked for all operands/programs; the tie is checked on every run',
+    level_text='every theorem in Rangers.Props.C10, C10B, C10M, C10R, C10T is kernel-checked for all operands/programs; the tie is checked on every run',
     level_note='256-bit limb arithmetic of holiman/uint256 (carry chains, Knuth division) and Keccak are below the model: '
                'sampled by the correspondence run and the searcher, not proved',
     trusted_base=['Lean 4 kernel', 'gen/cmd/c10facts + hook vm.VerifJumpTableAt', 'harness/cmd/c10',
